@@ -20,13 +20,20 @@ static var args_tuple; static var arg_items[9]; static int64_t in_i[8]; static d
 size_t len(var self) { if (self == args_tuple) return NARGS_GIVEN; struct Tuple* t = self; size_t n = 0; while (t->items[n] != Terminal) n++; return n; }
 var get(var self, var key) {
   int64_t i = ((struct Int*)key)->val;
-  if (self == args_tuple) { __CPROVER_assert(i >= 0 && i < NARGS_GIVEN, "[C14][C12] an argument is fetched only if it exists (too few arguments raise FormatError before anything is read)"); return arg_items[i]; }
+  if (self == args_tuple) { __CPROVER_assert(i >= 0 && i < NARGS_GIVEN, "[C14][C12] an argument is fetched only if it exists (too few arguments raise FormatError before anything is read)"); __CPROVER_assume(i >= 0 && i < NARGS_GIVEN); return arg_items[i]; }
   return ((struct Tuple*)self)->items[i];
 }
 /* c_int / c_float are the real ones of src/Num.c (fast path on type_of) */
 /* c_str is the real one of src/String.c (fast path on type_of) */
 var instance(var self, var cls) { return NULL; }
-var method_at_offset(var self, var cls, size_t offset, const char* m) { __CPROVER_assert(0, "harness: no method dispatch expected"); return NULL; }
+/* dispatch cut: the numeric accessors of the other numeric type (C_Float of an Int, C_Int of a Float) are Num.c's conversions */
+static double cv_int_as_float(var self) { return (double)((struct Int*)self)->val; }
+static int64_t cv_float_as_int(var self) { return (int64_t)((struct Float*)self)->val; }
+static struct C_Float cv_cfloat_of_int = { cv_int_as_float }; static struct C_Int cv_cint_of_float = { cv_float_as_int };
+var method_at_offset(var self, var cls, size_t offset, const char* m) {
+  if (cls == C_Float && HDR(self)->type == Int) return &cv_cfloat_of_int;
+  if (cls == C_Int && HDR(self)->type == Float) return &cv_cint_of_float;
+  CV_LIMIT(0, "harness: no other method dispatch expected"); return NULL; }
 var assign(var self, var obj) {
   if (HDR(self)->type == Int) ((struct Int*)self)->val = ((struct Int*)obj)->val;
   else if (HDR(self)->type == Float) ((struct Float*)self)->val = ((struct Float*)obj)->val;
